@@ -47,7 +47,7 @@ REAL_VS_STUB = {
     "stub": ["frame source: simkit.scenes camera with degenerate-frame faults", "disk: simkit.simfs"],
 }
 TIERS = {
-    "quick": {"runs": 2400, "budget_s": 70, "chunk": 20, "det_pairs": 48, "fresh": 4},
+    "quick": {"runs": 4000, "budget_s": 70, "chunk": 25, "det_pairs": 48, "fresh": 4},
     "thorough": {"runs": 60000, "budget_s": 900, "chunk": 30, "det_pairs": 384, "fresh": 24},
 }
 
@@ -179,8 +179,27 @@ def _gen_options(rng, grid):
     return o
 
 
+def _gen_stress(rng) -> dict:
+    """Locator stress: many dense random binary masks on one tiny, mostly periodic Cartesian
+    grid (clusters touching and wrapping around the boundaries in every possible topology)."""
+    dim = rng.choice([1, 2, 2, 2, 3])
+    nmax = {1: 12, 2: 9, 3: 5}[dim]
+    shape = [rng.randint(2, nmax) for _ in range(dim)]
+    dx = [rng.choice([1.0, 1.0, 0.5, 2.0]) for _ in range(dim)]
+    lo = [rng.choice([0.0, 0.0, -3.5]) for _ in range(dim)]
+    grid = {"kind": "cart", "bounds": [[a, a + n * d] for a, n, d in zip(lo, shape, dx)],
+            "shape": shape, "periodic": [rng.random() < 0.8 for _ in range(dim)]}
+    return {"grid": grid, "mask_seeds": [rng.randrange(1 << 30) for _ in range(40)],
+            "density": rng.choice([0.3, 0.4, 0.5, 0.6]),
+            "faces": rng.random() < 0.5,
+            "minimal_radius": rng.choice([-1, "-inf", -1, 0]),
+            "threshold": rng.choice([0.5, "auto", "mean"])}
+
+
 def generate(streams: Streams, tier: str, index: int) -> dict:
     rng = streams["workload"]
+    if rng.random() < 0.25:
+        return {"stress": _gen_stress(rng)}
     grid = _gen_grid(rng)
     frames = [_gen_frame(rng, grid) for _ in range(rng.choice([1, 1, 2, 3, 5]))]
     case = {"grid": grid, "frames": frames, "locate": _gen_options(rng, grid),
@@ -219,11 +238,65 @@ def _finite_violation(em, stage):
     return None
 
 
+def _stress_mask(st: dict, seed: int, shape) -> np.ndarray:
+    rng = np.random.default_rng(seed)
+    data = (rng.random(shape) < st["density"]).astype(float)
+    if st.get("faces"):
+        for ax in range(len(shape)):
+            for side in (0, -1):
+                idx = [slice(None)] * len(shape)
+                idx[ax] = side
+                face = data[tuple(idx)]
+                data[tuple(idx)] = np.maximum(face, rng.random(face.shape) < 0.5)
+    return data
+
+
+def _execute_stress(case: dict) -> Outcome:
+    from droplets.image_analysis import locate_droplets
+    from pde import ScalarField
+
+    log = EventLog()
+    cnt = Counter()
+    V: list[Violation] = []
+    st = case["stress"]
+    grid = scenes.make_grid(st["grid"])
+    mr = -math.inf if st["minimal_radius"] == "-inf" else st["minimal_radius"]
+    dim = len(st["grid"]["shape"])
+    log.add("stress", grid=st["grid"], n=len(st["mask_seeds"]), density=st["density"], mr=st["minimal_radius"])
+    cnt.inc("fault.frame_dense_binary", len(st["mask_seeds"]))
+    for seed in st["mask_seeds"]:
+        data = _stress_mask(st, seed, grid.shape)
+        try:
+            em = locate_droplets(ScalarField(grid, data), st["threshold"], minimal_radius=mr)
+        except Exception as exc:
+            err = SutError(exc)
+            V.append(Violation("C09.O1", f"locate raised {err.text} on a dense binary frame (grid cart "
+                               f"{dim}D periodic={st['grid']['periodic']}, mask seed {seed})",
+                               {"stage": "locate", "family": "cart", "exc_type": err.exc_type,
+                                "frame": err.frame, "kind": "stress"}))
+            break
+        cnt.inc("located_frames")
+        msg = _finite_violation(em, "locate")
+        if msg:
+            V.append(Violation("C09.O2", msg + f" (dense binary frame on a {dim}D grid periodic="
+                               f"{st['grid']['periodic']}, mask seed {seed}, minimal_radius="
+                               f"{st['minimal_radius']})", {"stage": "locate", "family": "cart",
+                                                            "kind": "stress"}))
+            break
+        log.add("located", seed=seed, n=len(em), fp=scenes.emulsion_fingerprint(em)[:4])
+    return Outcome(digest=log.digest(), violations=V, counters=cnt, nontrivial=True,
+                   events=log.count, log_head=log.head,
+                   coverage_keys=[repr(("stress", dim, tuple(st["grid"]["periodic"]),
+                                        st["minimal_radius"], st["threshold"]))])
+
+
 def execute(case: dict) -> Outcome:
     import droplets
     from droplets.image_analysis import locate_droplets
     from pde import MemoryStorage
 
+    if "stress" in case:
+        return _execute_stress(case)
     log = EventLog()
     cnt = Counter()
     V: list[Violation] = []
@@ -376,6 +449,19 @@ def evidence_extra(records) -> dict:
 
 
 def shrink(case: dict):
+    if "stress" in case:
+        st = case["stress"]
+        seeds = st["mask_seeds"]
+        if len(seeds) > 1:
+            yield {"stress": {**st, "mask_seeds": seeds[: len(seeds) // 2]}}
+            yield {"stress": {**st, "mask_seeds": seeds[len(seeds) // 2:]}}
+            for i in range(len(seeds)):
+                yield {"stress": {**st, "mask_seeds": [seeds[i]]}}
+        if st.get("faces"):
+            yield {"stress": {**st, "faces": False}}
+        if st["threshold"] != 0.5:
+            yield {"stress": {**st, "threshold": 0.5}}
+        return
     fr = case["frames"]
     if len(fr) > 1:
         for i in range(len(fr)):
@@ -413,6 +499,8 @@ def shrink(case: dict):
 
 
 def describe(case: dict) -> dict:
+    if "stress" in case:
+        return case
     return {"grid": case["grid"], "frames": [{"tag": f.get("tag"), "n": len(f.get("droplets", [])),
                                               "classes": sorted({d["cls"] for d in f.get("droplets", [])})}
                                              for f in case["frames"]],
